@@ -408,7 +408,9 @@ def icmp_expr(pred, a, b):
     t = resolve(a.t)
     if isinstance(t, PtrT):
         o = {'eq': '==', 'ne': '!=', 'ult': '<', 'ule': '<=', 'ugt': '>', 'uge': '>='}[pred]
-        return '(%s %s %s)' % (a.c, o, b.c)
+        if pred in ('eq', 'ne'): return '(%s %s %s)' % (a.c, o, b.c)
+        # relational comparison: by (signed) offset inside one object, as the hardware does for a pointer stepped just outside its object
+        return '__vp_pcmp(%s, %s, %s)' % (a.c, o, b.c)
     if pred in ('eq', 'ne', 'ult', 'ule', 'ugt', 'uge'):
         o = {'eq': '==', 'ne': '!=', 'ult': '<', 'ule': '<=', 'ugt': '>', 'uge': '>='}[pred]
         return '(%s %s %s)' % (a.c, o, b.c)
